@@ -1111,3 +1111,63 @@ _base_scn_ecpub = scenarios
 
 def scenarios():
     return _base_scn_ecpub() + [ec_public_codec(c) for c in ('ECDSAPub', 'EdDSAPub', 'ECDHPub')] + [eckdf_codec()]
+
+
+def pubkey_parse():
+    """PubKeyV4.parse (RFC 4880 5.5.2): four-octet creation time, algorithm octet, then the algorithm's public material read from exactly
+    the octets the header length leaves (a copy of them: nothing beyond the packet is visible to the material parser), all of them
+    consumed; the material class is the public class of the algorithm (an opaque one for algorithms without a class)."""
+    label = 'C08/PubKeyV4.parse'
+    PK = P + 'PubKeyV4'
+    F = 'pgpy.packet.fields.'
+    MAT = {1: 'RSAPub', 2: 'RSAPub', 3: 'RSAPub', 17: 'DSAPub', 16: 'ElGPub', 20: 'ElGPub', 19: 'ECDSAPub', 18: 'ECDHPub', 22: 'EdDSAPub', 21: 'OpaquePubKey'}
+
+    def gen(repo):
+        obls, funcs = [], []
+        for alg, mname in sorted(MAT.items()):
+            r = scn.Run(repo, PK, 'parse', '%s[algorithm %d]' % (label, alg))
+            ex, st = r.ex, r.st
+            OLD, HL = z3.Const('RECEIVED', B), z3.Int('header_length')
+            _hdr(r, HL)
+            st.pc += [HL >= 6, z3.Length(OLD) >= HL - 1, OLD[4] == alg]
+            for i in range(4):
+                st.pc += [OLD[i] >= 0, OLD[i] < 256]
+            buf = ex.new_buf(st, OLD)
+            me = E.VObj(PK, 'pkt')
+            ex.hooks[('ext', 'datetime.fromtimestamp')] = lambda ex, st, o, a: [(st, E.VExt('datetime', (a[0],)))]
+            classes = set(MAT.values())
+            for c in classes:
+                r.hook(F + c, '__call__', (lambda c: lambda ex, st, cls, a: [(st, E.VObj(F + c, 'material'))])(c))
+
+                def mparse(ex, st, o, a):
+                    st.ghost['mat_parse'] = (o, a[0], ex.seq(a[0], st))
+                    return [(st, E.VNone())]
+                r.hook(F + c, 'parse', scn.method_hook(mparse))
+            for pi, (s, v) in enumerate(r.call(me, [buf])):
+                if isinstance(v, E.Raise):
+                    r.oblige(s, 'safety(%s)/p%d' % (v.exc.split(':')[0], pi), z3.BoolVal(False), v.where)
+                    continue
+                cr = s.heap.get(('pkt', '_created'))
+                okt = isinstance(cr, E.VExt) and cr.name == 'datetime' and len(cr.args) == 1
+                r.oblige(s, 'creation-time-is-the-four-octet-number/p%d' % pi,
+                         z3.And(z3.BoolVal(bool(okt)), ex.as_int(cr.args[0]) == OLD[0] * 2 ** 24 + OLD[1] * 2 ** 16 + OLD[2] * 256 + OLD[3] if okt else z3.BoolVal(False)))
+                pa = s.heap.get(('pkt', '_pkalg'))
+                r.oblige(s, 'algorithm-is-the-fifth-octet/p%d' % pi, ex.as_int(pa) == alg if isinstance(pa, (E.VInt, E.VBool)) else z3.BoolVal(False))
+                mp = s.ghost.get('mat_parse')
+                okm = mp is not None and isinstance(mp[0], E.VObj) and mp[0].cls == F + mname
+                r.oblige(s, 'material-of-the-public-class-of-the-algorithm(%s)/p%d' % (mname, pi), z3.BoolVal(okm and s.heap.get(('pkt', 'keymaterial')) is mp[0]))
+                r.oblige(s, 'read-from-exactly-the-octets-the-header-length-leaves(a-copy)/p%d' % pi,
+                         z3.And(z3.BoolVal(okm and mp[1] is not buf), mp[2] == z3.Extract(OLD, 5, HL - 6) if okm else z3.BoolVal(False)))
+                r.oblige(s, 'consumes-exactly-the-body/p%d' % pi, s.heap[buf.cell] == z3.Extract(OLD, HL - 1, z3.Length(OLD) - (HL - 1)))
+            res = r.result()
+            obls += res['obligations']
+            funcs = res['funcs']
+        return {'obligations': obls, 'funcs': funcs, 'paths': 0}
+    return Scenario(label, PK + '.parse', gen, props=('C08', 'C18', 'C14'))
+
+
+_base_scn_pkp = scenarios
+
+
+def scenarios():
+    return _base_scn_pkp() + [pubkey_parse()]
